@@ -350,6 +350,27 @@ fn check_fun(c: &FunCase, cx: &mut Cx) -> Res {
             };
             let out = probe(&ron, &format!("{{{{ sanitize(value=bumped_branch{args}) }}}}"))?;
             cx.note(|| format!("sanitize({v:?}{args}) = {out:?}"));
+            if let (None, None, true) = (preset, sep, v.is_ascii() && !v.is_empty() && v.trim() == v.as_str()) {
+                // no separator: nothing is replaced, the whole value is one segment (lower-cased if
+                // asked, zeros stripped when it is all digits, cut to max_length characters)
+                let strip = |t: &str| -> String {
+                    if !*keep_zeros && !t.is_empty() && t.bytes().all(|b| b.is_ascii_digit()) {
+                        let z = t.trim_start_matches('0');
+                        if z.is_empty() { "0".into() } else { z.into() }
+                    } else {
+                        t.to_string()
+                    }
+                };
+                let mut w = strip(&if *lowercase { v.to_ascii_lowercase() } else { v.clone() });
+                if let Some(m) = max_length
+                    && w.len() > *m
+                {
+                    w.truncate(*m);
+                    w = strip(&w);
+                }
+                cx.label("sanitize-without-separator");
+                ensure!(out == w, "sanitize(value={v:?}{args}) = {out:?}; without a separator the value is one segment and the contract gives {w:?}");
+            }
             if let Some(w) = want {
                 ensure!(out == w, "sanitize(value={v:?}{args}) = {out:?}, contract says {w:?}");
             } else if let (Some(s), Some(m)) = (sep, max_length) {
@@ -417,7 +438,7 @@ pub fn property() -> Property {
                     .prop_map(|(preset, sep, lowercase, keep_zeros, max_length)| Fun::Sanitize { preset, sep, lowercase, keep_zeros, max_length }),
                 3 => (zg::timestamp(), fmt_strategy()).prop_map(|(ts, (format, valid))| Fun::FormatTs { ts, format, valid }),
             ];
-            (prop_oneof![3 => gens::text::nasty(), 2 => gens::text::unicode(30), 1 => Just(String::new())], fun).prop_map(|(value, fun)| FunCase { value, fun }).boxed()
+            (prop_oneof![3 => gens::text::nasty(), 2 => gens::text::unicode(30), 1 => Just(String::new()), 1 => "0{1,5}[0-9]{0,6}", 1 => gens::text::segmented()], fun).prop_map(|(value, fun)| FunCase { value, fun }).boxed()
         },
         check_fun,
     )
